@@ -185,9 +185,25 @@ pub fn exec_recv(cfg: &WCfg, from: Option<IpAddr>, bytes: &[u8]) -> (String, Res
 }
 
 /// `wire recv`
+/// run `f` with trace-level logging switched on (`--log-filter trippy=trace`): every `#[instrument]`ed function then
+/// renders its arguments — the packet views — with their `Debug` impls
+pub fn traced<T>(f: impl FnOnce() -> T) -> T {
+    let sub = tracing_subscriber::fmt().with_max_level(tracing::Level::TRACE).with_writer(std::io::sink).finish();
+    tracing::subscriber::with_default(sub, f)
+}
+
 pub fn op_recv(run: &mut Run, cfg: &WCfg, from: Option<IpAddr>, bytes: &[u8]) -> RecvOut {
     run.count("op:recv");
     let (req, r) = exec_recv(cfg, from, bytes);
+    // C04 "in every configuration": the same datagram once more with trace-level logging on (short datagrams —
+    // where the views are degenerate — always, the others one in eight)
+    if r.is_ok() && (bytes.len() <= 72 || run.ops.len() % 8 == 0) {
+        let (_, r2) = traced(|| exec_recv(cfg, from, bytes));
+        run.count("op:recv-traced");
+        if let Err(loc) = r2 {
+            panic_fail(run, "c04-panic-trace-logging", &req, &loc);
+        }
+    }
     match r {
         Ok(r) => {
             run.op(req, show_recv(&r));
